@@ -236,6 +236,35 @@ def destructuring_target_leaks(chk):
                                detail=f"declared {sorted(declared)}, expected {sorted(want)}\n{sx.show(out.result)}")
 
 
+def nested_leaks(chk):
+    """`setx inside them leaks` also through nesting: an assignment expression (or a setv in a :do clause) inside an inner
+    comprehension binds its target in the scope that contains the outermost comprehension - whichever of the two
+    comprehensions is compiled natively or as a generator function, and also when that variable is bound by a `let`.
+    Oracle: CPython running the equivalent nested comprehension with `:=`."""
+    import types
+    import hy
+    inner = {"native inner": "(lfor b (range 2) (setx x (+ x 1)))", "lifted inner": "(lfor b (range 2) :do (setv x (+ x 1)) x)"}
+    outer = {"native outer": "(lfor a (range 2) {})", "lifted outer": "(lfor a (range 2) :do (setv q a) {})"}
+    places = {"function": "(defn f [] (setv x 0) (setv r {}) [r x]) (f)", "module": "(do (setv x 0) (setv r {}) [r x])",
+              "function, let-bound": "(defn f [] (let [x 0] (setv r {}) [r x])) (f)", "module, let-bound": "(let [x 0] (setv r {}) [r x])"}
+    g = {}
+    exec("def f():\n    x = 0\n    r = [[(x := x + 1) for b in range(2)] for a in range(2)]\n    return [r, x]\nwant = f()", g)
+    want = g["want"]
+    for pn, pt in places.items():
+        for on, ot in outer.items():
+            for inn, it in inner.items():
+                src = pt.format(ot.format(it))
+                mod = types.ModuleType("hv_c04_nested")
+                try:
+                    got = hy.eval(hy.read_many(src), module=mod, locals=mod.__dict__)
+                except Exception as e:  # noqa: BLE001
+                    got = f"{type(e).__name__}: {e}"
+                chk.case(("nested", pn, on, inn))
+                chk.ob(f"nested-leak/{pn}/{on}/{inn}: the inner assignment updates the variable of the scope around the outer comprehension",
+                       got == want, "cpython-oracle", "proved", detail=f"{src} -> {got!r}; Python's nested comprehension with := gives {want!r}",
+                       replay={"confirmed": got != want, "input": src, "observed": repr(got), "expected": repr(want)})
+
+
 def first_iterable_scope(chk):
     """Python evaluates the first iterable of a comprehension in the *enclosing* scope (language reference 6.2.4); the
     lifted generator-function strategy must do the same, otherwise the two strategies differ as soon as the iterable names a
@@ -300,6 +329,7 @@ def run(chk):
     rules.run_cases(chk, names, replay_fn=replay_mismatch)
     leak_checks(chk)
     destructuring_target_leaks(chk)
+    nested_leaks(chk)
     first_iterable_scope(chk)
     chk.fn("hy/core/result_macros.py::compile_comprehension", "hy/scoping.py::ScopeGen.assign/access/iterator/finalize/__enter__",
            "hy/scoping.py::is_inside_function_scope, nearest_python_scope")
